@@ -46,6 +46,9 @@ type AScn struct {
 	// the caller's context is cancelled at this virtual instant while the scripted runs (like the UDP and TCP engines once
 	// they are reading) carry on and succeed: the request is then an error without a result, or a success with exact counts
 	CancelAtMs int `json:"cancel_at_ms,omitempty"`
+	// DelayBounded: every departure from the default schedule costs one deviation (with Bound 0: the default schedule
+	// only) - for requests with so many calls in flight that the free orders of their threads cannot be enumerated
+	DelayBounded bool `json:"delay_bounded,omitempty"`
 }
 
 type fetcher struct{ mode string }
@@ -118,7 +121,7 @@ func runA(sc *AScn, prefix []int, sig []uint32) (*vsched.Exec, *aObs) {
 	})
 	defer traceroute.VerifSetRunOnce(nil)
 	tr := traceroute.VerifNewTraceroute(&fetcher{sc.PublicIP})
-	x := vsched.Run(vsched.Config{Prefix: prefix, PrefixSig: sig, MaxVirtual: time.Hour}, nil, func() {
+	x := vsched.Run(vsched.Config{Prefix: prefix, PrefixSig: sig, MaxVirtual: time.Hour, DelayBounded: sc.DelayBounded}, nil, func() {
 		ctx := context.Background()
 		if sc.CancelAtMs != 0 {
 			var cancel context.CancelFunc
@@ -300,12 +303,38 @@ func cancelA(tier string) []*AScn {
 	return out
 }
 
+// manyA: more calls than any plausible in-flight limit (12 probes; 3 runs and 10 probes), all of them in flight at once
+// (they are launched a fraction of a millisecond apart and take 100 ms and more), none / the last four / every third
+// failing: exact counts and every failure exposed all the same.
+func manyA(tier string) []*AScn {
+	var out []*AScn
+	for _, qe := range [][2]int{{0, 12}, {3, 10}, {12, 0}} {
+		n := qe[0] + qe[1]
+		for _, mask := range []int{0, 0xf << (n - 4), 0x249 << 1} {
+			for _, rev := range []bool{false, true} {
+				sc := &AScn{Queries: qe[0], E2e: qe[1], Bound: 0, DelayBounded: true, FailMask: mask & (1<<n - 1)}
+				for i := 0; i < n; i++ {
+					if rev {
+						sc.Rank = append(sc.Rank, n-1-i)
+					} else {
+						sc.Rank = append(sc.Rank, i)
+					}
+				}
+				out = append(out, sc)
+			}
+		}
+	}
+	return out
+}
+
+func extraA(tier string) []*AScn { return append(cancelA(tier), manyA(tier)...) }
+
 func countA(tier string) int {
 	t := 0
 	for _, b := range blocks(tier) {
 		t += b.count
 	}
-	return t + len(cancelA(tier))
+	return t + len(extraA(tier))
 }
 
 func atA(tier string, idx int) *AScn {
@@ -314,7 +343,7 @@ func atA(tier string, idx int) *AScn {
 		n0 += b.count
 	}
 	if idx >= n0 {
-		return cancelA(tier)[idx-n0]
+		return extraA(tier)[idx-n0]
 	}
 	for _, b := range blocks(tier) {
 		if idx >= b.count {
